@@ -86,6 +86,9 @@ class MPUFileSink:
                             f.write(src_bytes)
 
                 if not keep_parts:
+                    # the part file is the only other copy: its bytes must have left
+                    # this process (write buffer) before it goes
+                    f.flush()
                     src_path.unlink()
 
         if not keep_parts:
